@@ -127,12 +127,19 @@ VARIANTS = [("prev=%s,extra=%d,cache=%s" % (p, x, c), (p, x, c))
                                   "tdms_segment.ObjectListKey.__init__", "tdms_segment.ObjectListKey.__eq__",
                                   "tdms_segment.ObjectListKey.__hash__"],
          ["C02", "C01", "C15"], variants=VARIANTS, setup=_setup, level="shape-bounded",
+         thorough_variants=[("prev=%s,extra=%d,cache=%s" % (p, x, c), (p, x, c))
+                            for (p, x, c) in [(2, 1, False), (3, 0, False), (3, 0, True)]] +
+                           [("prev=%s,extra=0,cache=%s,listed<=3" % (p, c), (p, 0, c, 3))
+                            for (p, c) in [("none", False), (1, False), (1, True)]],
+         thorough_bound="previous segment with <= 3 objects, or 2 objects plus an older object known only to the "
+                        "reader; <= 3 objects listed in this segment's metadata (previous <= 1)",
          bound="previous segment absent or with <= 2 objects (<= 1 when an older object known only to the "
                "reader is present), "
                "<= 2 objects listed in this segment's metadata; ToC flags, byte order, paths, headers, index "
                "fields and properties symbolic", split_variants=True, weight=30)
 def _read_segment_objects(vc):
-    (p, extra, use_cache) = vc.variant
+    (p, extra, use_cache) = vc.variant[:3]
+    maxcount = vc.variant[3] if len(vc.variant) > 3 else 2
     st = vc.st
     f = SFile("f")
     pos0 = vc.int("pos0", lo=0)
@@ -182,7 +189,7 @@ def _read_segment_objects(vc):
     new_list = vc.interp.truth((toc & L.TOC_NEW_OBJ_LIST) != 0)
     count = uint(SBytes(f.content, pos0, 4), 0, 4, big)
     if has_meta:
-        vc.assume(count <= 2)                                  # shape bound
+        vc.assume(count <= maxcount)                           # shape bound
         vc.assume(f.size - pos0 >= 4)
     out = vc.call_method(seg, "read_segment_objects", f, prev_map, cache, prev_seg)
 
@@ -223,7 +230,7 @@ def _read_segment_objects(vc):
     entries = []
     cur = pos0 + 4
     ncount = None
-    for k in (0, 1, 2):
+    for k in range(maxcount + 1):
         if vc.interp.truth(count == k):
             ncount = k
     if ncount is None:
